@@ -6,6 +6,6 @@ cd "$(dirname "$0")/.."
 test -x /venv/bin/python
 test -f /opt/veriftools/tla/tla2tools.jar
 java -version >/dev/null 2>&1
-chmod +x check tools/*.sh tools/ninja-stub 2>/dev/null || true
+chmod +x check tools/*.sh tools/*.py tools/ninja-stub tools/ninja-stub-x03 tools/xcodebuild-stub/xcodebuild 2>/dev/null || true
 mkdir -p evidence
 echo "setup ok"
